@@ -765,6 +765,7 @@ func main() {
 	to := flag.Int("to", 0, "")
 	nflag := flag.Int("n", 0, "goroutines per round (default 8 quick / 32 thorough)")
 	rounds := flag.Int("rounds", 0, "rounds (default 200 quick / 20000 thorough)")
+	parFlag := flag.Int("par", 0, "child processes at a time (default 4 quick / 10 thorough)")
 	f := lib.ParseFlags()
 	if *isChild {
 		child(f.Seed, *from, *to, *nflag)
@@ -776,7 +777,10 @@ func main() {
 	}
 	n, total, par, batch := 8, 200, 4, 25
 	if f.Thorough() {
-		n, total, par, batch = 32, 20000, 4, 250
+		n, total, par, batch = 32, 20000, 10, 250
+	}
+	if *parFlag > 0 {
+		par = *parFlag
 	}
 	if *nflag > 0 {
 		n = *nflag
@@ -915,9 +919,16 @@ func replay(f *lib.Flags, n int) {
 	if ri.N > 0 {
 		n = ri.N
 	}
+	// the program of the round: the shared module set (the private sets and the reader script
+	// derive from the same seed; `-show <round> -seed <seed>` prints script and sequential answers)
+	shared, _ := genSet(rand.New(rand.NewSource(roundSeed(ri.Seed, ri.Round))), ri.Round%4 == 3)
+	fmt.Printf("replay: seed %d round %d, %d goroutines; shared module set %s:\n", ri.Seed, ri.Round, n, hashSet(shared))
+	for _, src := range shared {
+		fmt.Printf("---- %s\n%s", src.Name, src.Text)
+	}
 	bad := 0
-	const tries = 10
-	for t := 0; t < tries; t++ {
+	const tries = 40
+	for t := 0; t < tries && bad == 0; t++ {
 		o := runBatch(ri.Seed, ri.Round, ri.Round+1, n, 5*time.Minute)
 		switch {
 		case o.rc != 0 || o.timeout:
@@ -930,7 +941,7 @@ func replay(f *lib.Flags, n int) {
 			fmt.Printf("run %d: seed %d round %d with %d goroutines: no race report, all answers equal to the sequential run\n", t, ri.Seed, ri.Round, n)
 		}
 	}
-	fmt.Printf("Go: %d of %d runs of the round failed; model: race free under the extracted discipline (Props/C19.lean); spec verdict: %s\n",
+	fmt.Printf("Go: %d run(s) of the round failed (up to %d tried, stopping at the first failure); model: race free under the extracted discipline (Props/C19.lean); spec verdict: %s\n",
 		bad, tries, map[bool]string{true: "violates", false: "holds (on the schedules tried)"}[bad > 0])
 	if bad > 0 {
 		os.Exit(1)
